@@ -4,6 +4,15 @@ import TempestVerif.Lemmas.ScReal
 import TempestVerif.Lemmas.VolVar
 import Mathlib.Analysis.SpecialFunctions.Exp
 import Mathlib.Tactic
+/-
+  C20 — weight utilities: ESS bounds, trimming contract, affine-invariant volume metric.
+  Theorems are about `Model.Ess`, `Model.Trim` at `ℝ` (exact arithmetic) and about the real-matrix model
+  `Lemmas.VolVar.volvar` of `volume_variation`; IEEE rounding is covered by the correspondence check only.
+    ESS       : C20_ess_bounds, C20_ess_scale_invariant, C20_ess_uniform, C20_compute_ess, C20_compute_ess_shift, C20_compute_ess_bounds
+    trimming  : C20_trim_upper_set (+ C20_trim_mask_raw, C20_trim_aligned), C20_trim_normalised, C20_trim_ess,
+                C20_trim_maximal, C20_trim_terminates
+    volume    : C20_volvar_nonneg, C20_volvar_weight_scale_invariant, C20_volvar_affine_invariant (full-rank guard)
+-/
 namespace Props.C20
 open Model.Ess Model.Trim
 
@@ -26,8 +35,6 @@ theorem sum_map_div (l : List ℝ) (c : ℝ) : (l.map (fun x => x / c)).sum = l.
   induction l with
   | nil => simp
   | cons a l ih => simp [ih, add_div]
-
-theorem sum_nonneg' (l : List ℝ) (h : ∀ x ∈ l, 0 ≤ x) : 0 ≤ l.sum := List.sum_nonneg h
 
 theorem sumsq_le_sq_sum (l : List ℝ) (h : ∀ x ∈ l, 0 ≤ x) :
     (l.map (fun x => x * x)).sum ≤ l.sum * l.sum := by
@@ -613,6 +620,17 @@ theorem C20_trim_terminates {σ : Type} (samples : List σ) (w : List ℝ) (e : 
     the pass at percentile 0 keeps everything — the loop returns all three samples -/
 example : ∃ r, trim ["a", "b", "c"] [(1 : ℝ), 1, 2] 0.9 2 = some r :=
   C20_trim_terminates _ _ _ _ (by simp) (by norm_num) (by norm_num) (by norm_num)
+
+/-- the hypotheses of the trimming theorems are jointly satisfiable: the run above returns normalised weights
+    whose ESS is at least 0.9 of the untrimmed one, selected by one threshold mask -/
+example : ∃ s' w', trim ["a", "b", "c"] [(1 : ℝ), 1, 2] 0.9 2 = some (s', w') ∧ w'.sum = 1 ∧
+    0.9 * ess [(1 : ℝ), 1, 2] ≤ ess w' ∧
+    ∃ θ : ℝ, s' = filterMask ["a", "b", "c"] ((normalise [(1 : ℝ), 1, 2]).map (fun x => Sc.le θ x)) := by
+  have h0 : ∀ x ∈ [(1 : ℝ), 1, 2], 0 ≤ x := by simp
+  have hs : (0 : ℝ) < [(1 : ℝ), 1, 2].sum := by norm_num
+  obtain ⟨⟨s', w'⟩, h⟩ := C20_trim_terminates ["a", "b", "c"] [(1 : ℝ), 1, 2] 0.9 2 h0 hs (by norm_num) (by norm_num)
+  obtain ⟨θ, _, _, _, hm, _, _⟩ := C20_trim_upper_set _ _ _ _ _ _ h
+  exact ⟨s', w', h, C20_trim_normalised _ _ _ _ h0 hs _ _ h, C20_trim_ess _ _ _ _ h0 hs _ _ h, θ, hm⟩
 
 example : sortAsc [(3 : ℝ), 1, 2] = [1, 2, 3] := by
   have hp := sortAsc_perm [(3 : ℝ), 1, 2]
